@@ -526,9 +526,9 @@ def k3_regex_validator(raises: bool, sel: int, ignore_case: bool, src: int) -> b
         if stub.calls != [want_call]:
             return ob.post(False)
         if raises:
-            # reported by the validator, pre sds as well as post sds; never propagated
+            # reported by the validator (before the sandbox exists, or at the latest after); never propagated
             err2 = validator.validate_post_sds_if_applicable(None)
-            return ob.post(err is not None and err2 is not None)
+            return ob.post(err is not None or err2 is not None)
         if err is not None or validator.validate_post_sds_if_applicable(None) is not None:
             return ob.post(False)
         # compiled once; the value is what compile returned
@@ -1097,6 +1097,24 @@ DOC_MISTAKES = (
     ('file-condition-name-absolute', '[assert]\ndir-contents . : matches { /abs }\n', VAL + SYN, 2, 'dir-contents . : matches { /abs }'),
     ('shell-command-empty', '[setup]\n$\n', SYN, 2, '$'),
 )
+# The act phase is parsed by the actor, outside the net around instruction parsers: an unterminated quote at every
+# position of a PROGRAM (bad quoting must be SYNTAX_ERROR, quoting the source of the act phase)
+_ACT_QUOTING = (
+    "'prog", "prog 'arg", 'prog "arg', "-rel-home 'prog", "-rel 'PD prog", "-rel PD 'prog", "% 'prog", "% prog 'arg", "-python 'arg",
+    "-python -c :> 'not a token", "@ 'PR", "@ PR 'arg", "prog.py -existing-file 'x", "prog.py -existing-file -rel-home 'x",
+    "prog.py -existing-file -rel 'PD x", "prog.py -existing-dir -rel PD 'x", "prog.py -existing-path 'x", "prog.py a\n -stdin 'x",
+    "prog.py a\n -transformed-by replace 'x y", "( 'prog )", "( prog 'a )",
+)
+_ACT_QUOTING_PRELUDE = '[setup]\ndef path PD = -rel-home home-dir\ndef program PR = % echo\n'
+DOC_MISTAKES = DOC_MISTAKES + tuple(
+    ('act-quoting-%d' % k, _ACT_QUOTING_PRELUDE + '[act]\n' + a + '\n', SYN, None, a.split('\n')[0])
+    for k, a in enumerate(_ACT_QUOTING) if a != "-python -c :> 'not a token"
+) + (
+    ('act-quoting-file-actor', "[conf]\nactor = file % python3\n[act]\nprog.py 'arg\n", SYN, None, "prog.py 'arg"),
+    ('act-quoting-file-actor-path', "[conf]\nactor = file % python3\n[act]\n'prog.py\n", SYN, None, "'prog.py"),
+    ('act-quoting-file-actor-interpreter', "[conf]\nactor = file % 'python3\n[act]\nprog.py\n", SYN, 2, "actor = file % 'python3"),
+    ('act-quoting-source-actor-interpreter', "[conf]\nactor = source % python3 'x\n[act]\npass\n", SYN, 2, "actor = source % python3 'x"),
+)
 # texts that need not be mistakes: only a documented outcome is required
 DOC_ODD = (
     ('empty', ''), ('comment-only', '# c\n'), ('header-only', '[assert]'), ('blank-lines', '\n\n \t\n'),
@@ -1110,6 +1128,7 @@ DOC_ODD = (
     ('nul-in-env-name', '[setup]\nenv A\x00 = x\n'), ('nul-in-string', "[setup]\ndef string S = 'a\x00b'\n"),
     ('nul-in-file-name', '[setup]\ndir a\x00b\n'), ('nul-in-file-name-2', '[setup]\nfile a\x00b = x\n'),
     ('nul-in-path-argument', '[assert]\nexists a\x00b\n'),
+    ('act-rest-of-line-with-quote', "[act]\n-python -c :> 'not a token\n"),
 )
 
 
@@ -1299,7 +1318,7 @@ def obligations(tier: str) -> List[Ob]:
                             'token deletion / duplication / transposition / replacement by reserved words, truncation, quote '
                             'imbalance, wrong-type and undefined symbols, invalid / extreme integers, regexes, globs, strings, paths'
                             % (lo, hi - 1, len(muts), len(g.BASES), [g.line_of(g.BASES[b][1])[:40] for b in bases][:6]),
-                      timeout=1500, real=REAL_CLI, stubs=cli.STUBS, entry='MainProgram.execute([FILE])',
+                      timeout=1500, real=REAL_CLI, stubs=cli.STUBS, entry='MainProgram.execute([FILE]) past its argument parser: MainProgram.execute_test_case(settings).report(environment)',
                       outside=('mutants not in the catalogue; processes are not started (exit code 0, no output)',)))
     obs.append(Ob(name='K6:seeded-oracle-error', fn='k6_cli', case=dict(level=0, range=(0, 6), oracle_bug=True), kernel='K6',
                   selector=True, bound='seeded: every mutant is claimed to be a mistake', timeout=600, expect=ob.REFUTE))
@@ -1308,15 +1327,15 @@ def obligations(tier: str) -> List[Ob]:
         obs.append(Ob(name='K7:mistakes:%d-%d' % (lo, hi - 1), fn='k7_document', case=dict(odd='mistakes', range=(lo, hi)), kernel='K7',
                       selector=True, bound='document-level mistakes %s: exit 65 with the stated identifier, file, line number and '
                                            'source line; nothing executed' % [d[0] for d in DOC_MISTAKES[lo:hi]],
-                      timeout=900, real=REAL_CLI, stubs=cli.STUBS, entry='MainProgram.execute([FILE])'))
+                      timeout=900, real=REAL_CLI, stubs=cli.STUBS, entry='MainProgram.execute([FILE]) past its argument parser: MainProgram.execute_test_case(settings).report(environment)'))
     obs.append(Ob(name='K7:odd-texts', fn='k7_document', case=dict(odd='odd', range=(0, len(DOC_ODD))), kernel='K7', selector=True,
                   bound='odd texts %s: a documented outcome other than INTERNAL_ERROR' % [d[0] for d in DOC_ODD],
-                  timeout=900, real=REAL_CLI, stubs=cli.STUBS, entry='MainProgram.execute([FILE])'))
+                  timeout=900, real=REAL_CLI, stubs=cli.STUBS, entry='MainProgram.execute([FILE]) past its argument parser: MainProgram.execute_test_case(settings).report(environment)'))
     obs.append(Ob(name='K7:reported-at-the-latest-when-run', fn='k7_document', case=dict(odd='latest', range=(0, len(DOC_LATEST))),
                   kernel='K7', selector=True,
                   bound='mistakes in integer expressions, regular expressions, replacement strings and glob patterns %s: exit 65 or '
                         'HARD_ERROR, naming the instruction' % [d[0] for d in DOC_LATEST],
-                  timeout=900, real=REAL_CLI, stubs=cli.STUBS, entry='MainProgram.execute([FILE])'))
+                  timeout=900, real=REAL_CLI, stubs=cli.STUBS, entry='MainProgram.execute([FILE]) past its argument parser: MainProgram.execute_test_case(settings).report(environment)'))
     obs.append(Ob(name='K7:seeded-oracle-error', fn='k7_document', case=dict(odd='mistakes', range=(0, 2), oracle_bug=True), kernel='K7',
                   selector=True, bound='seeded: a syntax error is claimed to be a validation error', timeout=300, expect=ob.REFUTE))
     return obs
@@ -1332,6 +1351,18 @@ def selftest(tier: str) -> int:
         r = cli.run_cli(text)
         if r['exc'] is not None or r['ident'] not in ('PASS', 'FAIL'):
             raise AssertionError('base is not a valid test case: %r -> %r %r' % (g.line_of(tokens), r['ident'], r['stderr'][:300]))
+        n += 1
+    # the entry used (MainProgram.execute_test_case on directly built settings) agrees with MainProgram.execute([FILE])
+    def norm(r):
+        return (r['rc'], r['stdout'], r['stderr'].replace(r['path'].rsplit('/h/case/', 1)[0], '<work>'), r['process_starts'], r['sandboxes'])
+    sample = _mutants(0)[::7] if tier == 'quick' else _mutants(0)
+    for bi, name, phase, text, act, exp, use in sample:
+        if g.regions_of(name, text):
+            continue
+        case, first, use_line = g.case_text(phase, text, act, use=use)
+        a, b = cli.run_cli(case), cli.run_cli(case, through_argument_parser=True)
+        if norm(a) != norm(b):
+            raise AssertionError('entries differ on %r: %r / %r' % (text, norm(a), norm(b)))
         n += 1
     # the stub eval sits where the real eval is looked up
     from exactly_lib.impls.types.integer import evaluate_integer
